@@ -7,6 +7,9 @@ import (
 	"encoding/json"
 
 	ecommon "github.com/ethereum/go-ethereum/common"
+	"github.com/polynetwork/poly/native"
+	scom "github.com/polynetwork/poly/native/service/cross_chain_manager/common"
+	"github.com/polynetwork/poly/native/service/governance/side_chain_manager"
 	"github.com/polynetwork/poly/native/service/header_sync/eth"
 )
 
@@ -22,3 +25,9 @@ func VerifVerifyMerkleProof(proofJSON []byte, root ecommon.Hash, contractAddr []
 
 // VerifCheckProofResult exposes checkProofResult.
 func VerifCheckProofResult(result, value []byte) bool { return checkProofResult(result, value) }
+
+// VerifVerifyFromTx exposes the unexported deposit check (confirmations, canonical header lookup, proof check).
+func VerifVerifyFromTx(service *native.NativeService, proof, extra []byte, fromChainID uint64, height uint32,
+	sideChain *side_chain_manager.SideChain) (*scom.MakeTxParam, error) {
+	return verifyFromPixieTx(service, proof, extra, fromChainID, height, sideChain)
+}
